@@ -43,6 +43,10 @@ pub struct Verdict {
     pub out_len: usize,
     pub hook_points: u64,
     pub skipped: bool,
+    /// processes created through the seam during the call
+    pub spawns_seen: u64,
+    /// more than one parent thread used the child's handles: the event order is not ours to decide
+    pub multi_threaded_parent: bool,
 }
 
 // ---------------------------------------------------------------------------------------------
@@ -211,9 +215,13 @@ pub struct RefProgram {
     pub tokens: Arc<Vec<String>>,
 }
 
-type RefCache = Mutex<HashMap<Job, Option<RefProgram>>>;
+pub type RefCache = Mutex<HashMap<Job, Option<RefProgram>>>;
 
-fn reference_for(cache: &RefCache, job: &Job) -> Option<RefProgram> {
+pub fn new_ref_cache() -> RefCache {
+    Mutex::new(HashMap::new())
+}
+
+pub fn reference_for(cache: &RefCache, job: &Job) -> Option<RefProgram> {
     let mut key = job.clone();
     key.options.rustfmt = false;
     if let Some(hit) = cache.lock().unwrap().get(&key) {
@@ -284,6 +292,100 @@ fn panic_class(message: &str) -> String {
     format!("panic:{brief}")
 }
 
+
+/// Classify what a `rustfmt: true` call came back with against the reference program.
+/// `formatted`: whether a formatter is known to have produced output (None: decide from the text).
+pub fn judge(
+    result: std::thread::Result<Outcome>,
+    reference: &RefProgram,
+    formatted: Option<bool>,
+) -> (String, Option<Failure>) {
+    let location: Option<String> = None;
+    match result {
+        Err(payload) => match payload.downcast_ref::<Sentinel>() {
+            Some(Sentinel::Hang(what)) => (
+                what.to_string(),
+                Some(Failure {
+                    class: what.to_string(),
+                    detail: "parent and formatter child can neither make progress".into(),
+                    location: None,
+                }),
+            ),
+            Some(Sentinel::StepCap) => (
+                "step_cap".into(),
+                Some(Failure {
+                    class: "step_cap".into(),
+                    detail: format!("more than {} parent seam calls", procsim::PARENT_OP_CAP),
+                    location: None,
+                }),
+            ),
+            other => (
+                "harness_panic".into(),
+                Some(Failure {
+                    class: "harness".into(),
+                    detail: format!("unexpected payload {other:?}"),
+                    location,
+                }),
+            ),
+        },
+        Ok(Outcome::Panic { message }) => {
+            let class = panic_class(&message);
+            (
+                class.clone(),
+                Some(Failure {
+                    class,
+                    detail: message,
+                    location,
+                }),
+            )
+        }
+        Ok(Outcome::Err { variant, display, .. }) => (
+            format!("err:{variant}"),
+            Some(Failure {
+                class: format!("err:{variant}"),
+                detail: display,
+                location: None,
+            }),
+        ),
+        Ok(Outcome::Ok { text }) => {
+            if text.is_empty() {
+                (
+                    "result:empty".into(),
+                    Some(Failure {
+                        class: "result:empty".into(),
+                        detail: "Ok(\"\") returned instead of the program".into(),
+                        location: None,
+                    }),
+                )
+            } else {
+                let cmp = tokens::compare(&reference.tokens, &text);
+                match cmp {
+                    tokens::Cmp::Equal => {
+                        // the unformatted fallback is one line (string literals escape newlines)
+                        let formatted = formatted.unwrap_or(true) && text.contains('\n');
+                        (
+                            if formatted {
+                                "ok:formatted".to_string()
+                            } else {
+                                "ok:fallback".to_string()
+                            },
+                            None,
+                        )
+                    }
+                    other => (
+                        format!("result:{}", other.class()),
+                        Some(Failure {
+                            class: format!("result:{}", other.class()),
+                            detail: format!("{other:?}"),
+                            location: None,
+                        }),
+                    ),
+                }
+            }
+        }
+    }
+}
+
 /// Execute one case on a fresh thread (own entropy stream, own backend).
 pub fn run_case(case: &Case, reference: Option<&RefProgram>, want_log: bool) -> Verdict {
     let (eligible, kinds) = classify(&case.proc);
@@ -300,6 +402,8 @@ pub fn run_case(case: &Case, reference: Option<&RefProgram>, want_log: bool) -> 
             out_len: 0,
             hook_points: 0,
             skipped: true,
+            spawns_seen: 0,
+            multi_threaded_parent: false,
         };
     };
     let case = case.clone();
@@ -358,91 +462,18 @@ pub fn run_case(case: &Case, reference: Option<&RefProgram>, want_log: bool) -> 
         }
     }
 
-    let mut out_len = 0;
-    let (outcome_class, failure): (String, Option<Failure>) = match result {
-        Err(payload) => match payload.downcast_ref::<Sentinel>() {
-            Some(Sentinel::Hang(what)) => (
-                what.to_string(),
-                Some(Failure {
-                    class: what.to_string(),
-                    detail: "parent and formatter child can neither make progress".into(),
-                    location: None,
-                }),
-            ),
-            Some(Sentinel::StepCap) => (
-                "step_cap".into(),
-                Some(Failure {
-                    class: "step_cap".into(),
-                    detail: format!("more than {} parent seam calls", procsim::PARENT_OP_CAP),
-                    location: None,
-                }),
-            ),
-            other => (
-                "harness_panic".into(),
-                Some(Failure {
-                    class: "harness".into(),
-                    detail: format!("unexpected payload {other:?}"),
-                    location,
-                }),
-            ),
-        },
-        Ok(Outcome::Panic { message }) => {
-            let class = panic_class(&message);
-            (
-                class.clone(),
-                Some(Failure {
-                    class,
-                    detail: message,
-                    location,
-                }),
-            )
-        }
-        Ok(Outcome::Err { variant, display, .. }) => (
-            format!("err:{variant}"),
-            Some(Failure {
-                class: format!("err:{variant}"),
-                detail: display,
-                location: None,
-            }),
-        ),
-        Ok(Outcome::Ok { text }) => {
-            out_len = text.len();
-            if text.is_empty() {
-                (
-                    "result:empty".into(),
-                    Some(Failure {
-                        class: "result:empty".into(),
-                        detail: "Ok(\"\") returned instead of the program".into(),
-                        location: None,
-                    }),
-                )
-            } else {
-                let cmp = tokens::compare(&reference.tokens, &text);
-                match cmp {
-                    tokens::Cmp::Equal => {
-                        let formatted = stats.format_ok > 0 && text.contains('\n');
-                        (
-                            if formatted {
-                                "ok:formatted".to_string()
-                            } else {
-                                "ok:fallback".to_string()
-                            },
-                            None,
-                        )
-                    }
-                    other => (
-                        format!("result:{}", other.class()),
-                        Some(Failure {
-                            class: format!("result:{}", other.class()),
-                            detail: format!("{other:?}"),
-                            location: None,
-                        }),
-                    ),
-                }
-            }
-        }
+    let out_len = match &result {
+        Ok(Outcome::Ok { text }) => text.len(),
+        _ => 0,
     };
+    let (outcome_class, mut failure) = judge(result, &reference, Some(stats.format_ok > 0));
+    if let Some(f) = failure.as_mut() {
+        if f.location.is_none() && f.class.starts_with("panic:") {
+            f.location = location;
+        }
+    }
     hasher.str(&outcome_class);
+    let stats_threads = stats.parent_threads_max;
     let fault_fired = stats.spawn_errors > 0
         || stats.child_exit_nonzero > 0
         || stats.child_killed > 0
@@ -461,6 +492,8 @@ pub fn run_case(case: &Case, reference: Option<&RefProgram>, want_log: bool) -> 
         out_len,
         hook_points: points,
         skipped: false,
+        spawns_seen: programs.len() as u64,
+        multi_threaded_parent: stats_threads > 1,
     }
 }
 
@@ -525,6 +558,7 @@ pub fn gen_case(rng: &mut Rng) -> Case {
             .map(|_| *rng.pick(&[0u64, 1, 1, 5, 100, 1_000_000]))
             .collect(),
         short_writes: false,
+        exit_lag: *rng.pick(&[0u64, 0, 0, 1, 3, 50]),
     };
     let tiny = proc.stdin_cap < 64 || proc.stdout_cap < 64 || proc.chunk < 64;
     let shader = if tiny || rng.chance(500) {
@@ -582,6 +616,10 @@ pub fn gen_case(rng: &mut Rng) -> Case {
                 1 => {
                     s.push(Op::EmitRef(rng.range(1, 999) as u32));
                     s.push(Op::Flush);
+                    if rng.chance(400) {
+                        s.push(Op::CloseStdout);
+                        s.push(Op::Delay(*rng.pick(DELAYS)));
+                    }
                 }
                 _ => {}
             }
@@ -623,6 +661,11 @@ pub fn gen_case(rng: &mut Rng) -> Case {
                     s.push(Op::ReadToEof);
                     s.push(Op::EmitRef(rng.range(1, 1000) as u32));
                     s.push(Op::Flush);
+                    if rng.chance(400) {
+                        // stdout reaches EOF well before the process is gone
+                        s.push(Op::CloseStdout);
+                        s.push(Op::Delay(*rng.pick(DELAYS)));
+                    }
                     maybe_delay(rng, s, 300);
                 }
             }
@@ -733,6 +776,14 @@ pub fn systematic_cases() -> Vec<Case> {
             SpawnPlan::Ok,
             vec![Op::ReadToEof, Op::EmitRef(300), Op::Flush, Op::Kill(libc::SIGKILL)],
         ),
+        (
+            SpawnPlan::Ok,
+            vec![Op::ReadToEof, Op::EmitRef(300), Op::Flush, Op::CloseStdout, Op::Delay(1000), Op::Kill(libc::SIGKILL)],
+        ),
+        (
+            SpawnPlan::Ok,
+            vec![Op::ReadToEof, Op::EmitRef(900), Op::Flush, Op::CloseStdout, Op::Delay(1_000_000), Op::Exit(1)],
+        ),
         (SpawnPlan::Ok, vec![Op::ReadToEof, Op::Exit(0)]),
         (SpawnPlan::Ok, vec![Op::Exit(0)]),
         (SpawnPlan::Ok, vec![Op::Read(10), Op::Exit(0)]),
@@ -784,6 +835,7 @@ pub fn systematic_cases() -> Vec<Case> {
                             op_cost: *op_cost,
                             parent_costs: parent_costs.clone(),
                             short_writes: false,
+                            exit_lag: if cap == 64 { 0 } else { 2 },
                         },
                     });
                 }
@@ -998,6 +1050,8 @@ struct Tally {
     failures: BTreeMap<(String, String), Vec<(u64, Case, Failure)>>,
     samples: Vec<serde_json::Value>,
     hook_points: u64,
+    runs_with_spawn_through_seam: u64,
+    runs_with_multi_threaded_parent: u64,
 }
 
 impl Tally {
@@ -1018,6 +1072,8 @@ impl Tally {
             failures: BTreeMap::new(),
             samples: Vec::new(),
             hook_points: 0,
+            runs_with_spawn_through_seam: 0,
+            runs_with_multi_threaded_parent: 0,
         }
     }
 
@@ -1047,6 +1103,12 @@ impl Tally {
         self.distinct_logs.insert(v.log_hash);
         self.stats.add(&v.stats);
         self.hook_points += v.hook_points;
+        if v.spawns_seen > 0 {
+            self.runs_with_spawn_through_seam += 1;
+        }
+        if v.multi_threaded_parent {
+            self.runs_with_multi_threaded_parent += 1;
+        }
         if case.proc.spawn == SpawnPlan::Ok {
             let rel = |cap: usize| {
                 if ref_len > cap {
@@ -1095,6 +1157,8 @@ impl Tally {
         self.distinct_logs.extend(o.distinct_logs);
         self.stats.add(&o.stats);
         self.hook_points += o.hook_points;
+        self.runs_with_spawn_through_seam += o.runs_with_spawn_through_seam;
+        self.runs_with_multi_threaded_parent += o.runs_with_multi_threaded_parent;
         for (k, v) in o.kinds {
             *self.kinds.entry(k).or_default() += v;
         }
@@ -1289,6 +1353,11 @@ pub fn main(tier: Tier) -> i32 {
         let reference = reference_for(&cache, &case.job);
         let a = run_case(&case, reference.as_ref(), false);
         let b = run_case(&case, reference.as_ref(), false);
+        if a.multi_threaded_parent || b.multi_threaded_parent {
+            // the code under test uses helper threads around the formatter: their real-time
+            // interleaving is not behind a seam, only outcomes are comparable
+            continue;
+        }
         if a.log_hash != b.log_hash || a.outcome_class != b.outcome_class {
             det_mismatch += 1;
         }
@@ -1298,6 +1367,14 @@ pub fn main(tier: Tier) -> i32 {
         return 2;
     }
 
+    // 4.4 the model against the real kernel for the scenario matrix
+    let kernel = match crate::realkernel::cross_check(tier) {
+        Ok(k) => k,
+        Err(e) => {
+            eprintln!("HARNESS-ERROR kernel cross-check: {e}");
+            return 2;
+        }
+    };
     let mut failures: Vec<(String, Case, Failure)> = Vec::new();
     for (i, c, f) in sys.failures.values().flatten() {
         failures.push((format!("sys:{i}"), c.clone(), f.clone()));
@@ -1349,12 +1426,63 @@ pub fn main(tier: Tier) -> i32 {
         }
     }
 
+    // Model vs. kernel disagreements (DESIGN §4.4):
+    //  * eligible scenario, kernel outcome breaks the oracle, model said ok: the real kernel
+    //    itself demonstrates a violation (typically a race the forced ordering does not pin);
+    //  * model said "fails", kernel says ok: the model cannot be trusted -> harness error;
+    //  * anything else (ok vs ok, informational scenarios): harness error only if this run would
+    //    otherwise report a clean pass.
+    let mut kernel_warnings = 0;
+    for d in &kernel.disagreements {
+        println!(
+            "MODEL-DISAGREES {}: model={} kernel={} eligible={}",
+            d.scenario.name, d.model, d.kernel, d.eligible
+        );
+        let kernel_ok = d.kernel.starts_with("ok:");
+        let model_ok = d.model.starts_with("ok:");
+        if d.eligible && !kernel_ok && model_ok {
+            let class = format!("real_kernel:{}", d.kernel);
+            if let Some(k) = known.lookup("C19", &class, &d.scenario.name) {
+                known_hits += 1;
+                lines.push(format!("KNOWN-FINDING: property=C19 {class} {}", k.what));
+                continue;
+            }
+            let doc = json!({"property":"C19","seed":seed,"run":"real_kernel","failure_class":class,
+                "detail": format!("real child process, real pipes, scenario {}: the call returned {} (the simulated run of the same scenario returned {})", d.scenario.name, d.kernel, d.model),
+                "kernel_scenario": d.scenario, "replay_exact": false});
+            match evidence::write_replay("C19", &format!("{seed}-kernel-{:x}", rng::fnv1a(d.scenario.name.as_bytes())), &doc) {
+                Ok(path) => {
+                    violations += 1;
+                    lines.push(format!("C19 violation (real kernel): {} in scenario {}", d.kernel, d.scenario.name));
+                    lines.push(format!("VIOLATION property=C19 replay={}", path.display()));
+                }
+                Err(e) => {
+                    eprintln!("HARNESS-ERROR {e}");
+                    return 2;
+                }
+            }
+        } else if d.eligible && kernel_ok && !model_ok {
+            eprintln!("HARNESS-ERROR the formatter-process model reports a failure the real kernel does not show ({}): model={} kernel={}", d.scenario.name, d.model, d.kernel);
+            return 2;
+        } else {
+            kernel_warnings += 1;
+        }
+    }
+    if kernel_warnings > 0 && violations == 0 {
+        eprintln!("HARNESS-ERROR the formatter-process model disagrees with the real kernel in {kernel_warnings} of {} scenarios and nothing else was found: a clean verdict cannot be trusted", kernel.scenarios);
+        return 2;
+    }
+
     let wall = start.elapsed().as_secs_f64();
     let mut all = Tally::new();
     let sys_eval = sys.evaluations;
     let sys_samples = sys.samples.clone();
     all.merge(sys);
     all.merge(random);
+    if all.eligible > 0 && all.runs_with_spawn_through_seam == 0 {
+        eprintln!("HARNESS-ERROR no formatter process was created through the verification seam in {} runs with rustfmt:true: the code under test bypasses `Command`/`Stdio` in pretty_print_rustfmt, so C19 cannot be decided by this simulator", all.evaluations);
+        return 2;
+    }
     let unreached: Vec<&str> = [
         ("epipe", all.stats.epipe),
         ("epipe_mid_write", all.stats.epipe_mid_write),
@@ -1403,8 +1531,17 @@ pub fn main(tier: Tier) -> i32 {
         "outcomes_eligible": all.outcomes,
         "outcomes_informational": all.info_outcomes,
         "hook_points_passed": all.hook_points,
+        "runs_with_spawn_through_seam": all.runs_with_spawn_through_seam,
+        "runs_with_multi_threaded_parent": all.runs_with_multi_threaded_parent,
         "determinism_pairs_checked": det_n,
         "known_findings_hit": known_hits,
+        "model_vs_real_kernel": {
+            "scenarios": kernel.scenarios,
+            "agree": kernel.agree,
+            "disagreements": kernel.disagreements.iter().map(|d| format!("{}: model={} kernel={}", d.scenario.name, d.model, d.kernel)).collect::<Vec<_>>(),
+            "outcome_classes_on_the_real_kernel": kernel.classes,
+            "what": "same fault scripts executed by a real child process over real pipes with forced orderings (child-first: spawn returns once the child is a zombie or asleep; parent-first: child waits for FIONREAD); the outcome class must equal the model's, a disagreement is exit 2",
+        },
         "components": {
             "real": ["wgsl_to_wgpu::create_shader_module*, all generators, pretty_print_rustfmt (parent side: write_all, wait_with_output via the seam's mirror of std, status test, from_utf8)", "real rustfmt binary in the fault-free block"],
             "stub": ["formatter process, its pipes and exit status (procsim model)", "formatting function of the simulated formatter (prettyplease)"],
@@ -1475,6 +1612,40 @@ pub fn replay(path: &str, doc: &serde_json::Value) -> i32 {
         println!("VIOLATION property=C19 replay={path}");
         return 1;
     }
+    if doc.get("kernel_scenario").is_some() {
+        let sc: crate::realkernel::Scenario = match serde_json::from_value(doc["kernel_scenario"].clone()) {
+            Ok(s) => s,
+            Err(e) => {
+                eprintln!("HARNESS-ERROR bad replay file: {e}");
+                return 2;
+            }
+        };
+        let env = match crate::realkernel::KernelEnv::new() {
+            Ok(e) => e,
+            Err(e) => {
+                eprintln!("HARNESS-ERROR {e}");
+                return 2;
+            }
+        };
+        // real processes: the outcome may depend on timing the harness does not control
+        for attempt in 1..=40 {
+            match env.run(&sc) {
+                Ok(class) if !class.starts_with("ok:") => {
+                    println!("attempt {attempt}: real kernel outcome {class}");
+                    println!("REPLAY-DIFFERS class=real_kernel:{class} (real processes, not bit-exact)");
+                    println!("VIOLATION property=C19 replay={path}");
+                    return 1;
+                }
+                Ok(_) => {}
+                Err(e) => {
+                    eprintln!("HARNESS-ERROR {e}");
+                    return 2;
+                }
+            }
+        }
+        println!("replay {path}: 40 executions on the real kernel all returned the program");
+        return 0;
+    }
     let case: Case = match serde_json::from_value(doc["case"].clone()) {
         Ok(c) => c,
         Err(e) => {
@@ -1498,7 +1669,7 @@ pub fn replay(path: &str, doc: &serde_json::Value) -> i32 {
         }
         Some(f) => {
             let hash = format!("{:016x}", v.log_hash);
-            if f.class == want_class && hash == want_hash {
+            if f.class == want_class && (hash == want_hash || v.multi_threaded_parent) {
                 println!("REPLAY-EXACT class={} hash={hash}", f.class);
             } else {
                 println!(
